@@ -1,0 +1,63 @@
+//go:build verif
+
+// Contracts for the deductive verifier under /verif (comment-only file).
+package api
+
+// ---- option constants shared across the layers (C18)
+//@ datainv flag_use_int64 props C18: _F_use_int64 == consts.F_use_int64 && consts.OptionUseInt64 == 1 << consts.F_use_int64
+//@ datainv flag_use_number props C18: _F_use_number == consts.F_use_number && consts.OptionUseNumber == 1 << consts.F_use_number
+//@ datainv flag_disable_urc props C18: _F_disable_urc == consts.F_disable_urc && consts.OptionUseUnicodeErrors == 1 << consts.F_disable_urc
+//@ datainv flag_disable_unknown props C18: _F_disable_unknown == consts.F_disable_unknown && consts.OptionDisableUnknown == 1 << consts.F_disable_unknown
+//@ datainv flag_copy_string props C18: _F_copy_string == consts.F_copy_string && consts.OptionCopyString == 1 << consts.F_copy_string
+//@ datainv flag_validate_string props C18: _F_validate_string == consts.F_validate_string && consts.OptionValidateString == 1 << consts.F_validate_string
+//@ datainv flag_no_validate_json props C18: consts.OptionNoValidateJSON == 1 << consts.F_no_validate_json
+//@ datainv flag_case_sensitive props C18: consts.OptionCaseSensitive == 1 << consts.F_case_sensitive
+//@ datainv flag_native_shared props C18: consts.F_use_number == types.B_USE_NUMBER && consts.F_validate_string == types.B_VALIDATE_STRING && consts.F_no_validate_json == types.B_NO_VALIDATE_JSON
+//@ datainv flag_distinct props C18: consts.F_use_int64 != consts.F_use_number && consts.F_use_int64 != consts.F_disable_urc && consts.F_use_int64 != consts.F_disable_unknown && consts.F_use_int64 != consts.F_copy_string && consts.F_use_int64 != consts.F_validate_string && consts.F_use_int64 != consts.F_no_validate_json && consts.F_use_int64 != consts.F_case_sensitive && consts.F_use_number != consts.F_disable_urc && consts.F_use_number != consts.F_disable_unknown && consts.F_use_number != consts.F_copy_string && consts.F_use_number != consts.F_validate_string && consts.F_use_number != consts.F_no_validate_json && consts.F_use_number != consts.F_case_sensitive && consts.F_disable_urc != consts.F_disable_unknown && consts.F_disable_urc != consts.F_copy_string && consts.F_disable_urc != consts.F_validate_string && consts.F_disable_urc != consts.F_no_validate_json && consts.F_disable_urc != consts.F_case_sensitive && consts.F_disable_unknown != consts.F_copy_string && consts.F_disable_unknown != consts.F_validate_string && consts.F_disable_unknown != consts.F_no_validate_json && consts.F_disable_unknown != consts.F_case_sensitive && consts.F_copy_string != consts.F_validate_string && consts.F_copy_string != consts.F_no_validate_json && consts.F_copy_string != consts.F_case_sensitive && consts.F_validate_string != consts.F_no_validate_json && consts.F_validate_string != consts.F_case_sensitive && consts.F_no_validate_json != consts.F_case_sensitive
+
+// ---- setters (C18)
+//@ func (*Decoder).SetOptions props C18 mode bv
+//@   requires self != nil
+//@   modifies self.f
+//@   panics_if (opts & consts.OptionUseNumber != 0) && (opts & consts.OptionUseInt64 != 0)
+//@   ensures self.f == uint64(opts)
+//@   ensures !((opts & consts.OptionUseNumber != 0) && (opts & consts.OptionUseInt64 != 0))
+
+//@ func (*Decoder).UseInt64 props C18 mode bv
+//@   requires self != nil
+//@   modifies self.f
+//@   ensures self.f == (old(self.f) | uint64(consts.OptionUseInt64)) &^ uint64(consts.OptionUseNumber)
+
+//@ func (*Decoder).UseNumber props C18 mode bv
+//@   requires self != nil
+//@   modifies self.f
+//@   ensures self.f == (old(self.f) | uint64(consts.OptionUseNumber)) &^ uint64(consts.OptionUseInt64)
+
+//@ func (*Decoder).UseUnicodeErrors props C18 mode bv
+//@   requires self != nil
+//@   modifies self.f
+//@   ensures self.f == old(self.f) | uint64(consts.OptionUseUnicodeErrors)
+
+//@ func (*Decoder).DisallowUnknownFields props C18 mode bv
+//@   requires self != nil
+//@   modifies self.f
+//@   ensures self.f == old(self.f) | uint64(consts.OptionDisableUnknown)
+
+//@ func (*Decoder).CopyString props C18 mode bv
+//@   requires self != nil
+//@   modifies self.f
+//@   ensures self.f == old(self.f) | uint64(consts.OptionCopyString)
+
+//@ func (*Decoder).ValidateString props C18 mode bv
+//@   requires self != nil
+//@   modifies self.f
+//@   ensures self.f == old(self.f) | uint64(consts.OptionValidateString)
+
+//@ func (*Decoder).Reset props C18
+//@   requires self != nil
+//@   modifies self.s, self.i
+//@   ensures same(self.s, s) && self.i == 0
+
+//@ func (*Decoder).Pos props C18
+//@   requires self != nil
+//@   ensures result == self.i
